@@ -246,6 +246,10 @@ func runResumption(c *simkit.Choice, r *simkit.Rec) {
 	}
 	// one connection of the gmtls client (or the reference client when ref != nil)
 	tainted := map[string]bool{} // tickets delivered in handshakes the client did not complete
+	// client-cache model, as far as it is certain: the newest ticket the gmtls client
+	// was handed for a name in a handshake it completed, valid until the client dials
+	// another name (which may evict it)
+	latest := map[string][]byte{}
 	connect := func(tag string, sv *resSrv, ccfg *gmtls.Config, ref *reftls.ClientCfg, fault int) *connOut {
 		out := &connOut{}
 		capt := simkit.NetCfg{Capture: true}
@@ -418,6 +422,25 @@ func runResumption(c *simkit.Choice, r *simkit.Rec) {
 		if tainted[string(offered)] && !viaRef {
 			fail("unestablished-session-offered", site, "the client offered a ticket it had received in a handshake that it never completed (the server's Finished was never verified, RFC 5077 3.3)")
 			return
+		}
+		if want := latest[dialled]; want != nil && !viaRef && !bytes.Equal(want, offered) {
+			if wi := issued[string(want)]; wi != nil && contains(offeredSuites, wi.suite) {
+				what := "no ticket"
+				if oi := issued[string(offered)]; oi != nil {
+					what = fmt.Sprintf("an older ticket (key generation %d)", oi.gen)
+				} else if len(offered) > 0 {
+					what = "a ticket nobody issued"
+				}
+				fail("stale-session-offered", site, fmt.Sprintf("in its previous completed connection to %q the client was handed a new ticket (key generation %d); it now offered %s: the session cache did not take the newer session", dialled, wi.gen, what))
+				return
+			}
+		}
+		if !viaRef {
+			for n := range latest {
+				if n != dialled {
+					delete(latest, n) // another name was dialled: the entry may have been evicted
+				}
+			}
 		}
 		it := issued[string(offered)]
 		if it != nil && !viaRef && it.name != dialled {
@@ -655,6 +678,9 @@ func runResumption(c *simkit.Choice, r *simkit.Rec) {
 			}
 			issued[string(nst)] = &issuedTicket{gen: sv.keys[0], vers: vers, suite: suite, master: master, clientCert: ccert, cfgSig: sv.sig(), peerCerts: pcs, name: dialled}
 			issuedOrder = append(issuedOrder, string(nst))
+			if !viaRef && hsOK {
+				latest[dialled] = nst
+			}
 		}
 	}
 
